@@ -34,6 +34,7 @@ REQUIRED_REFS = {"tie_prev", "tie_next", "slur_starts", "slur_stops", "tuplet_st
 def run(ctx):
     from ..rules import ownership as _OW5
     _OW5.rule_shallow_copy_shares_lists(ctx)
+    _OW5.rule_field_owner(ctx)
     from ..rules import extra as _X4
     _X4.rule_ids_over_all_notes(ctx)
     _X4.rule_destinations_deduplicated(ctx)
